@@ -60,6 +60,45 @@ func TestC10(t *testing.T) {
 			out.emit(tag, "c10h", []string{ty.Sexp(), hexBytes(h.head), hx(h.pad), hexBytes(h.tail)}, c10hObs(ty, h))
 		}
 	})
+	// single values of more than a megabyte (byte lists, bitlists, also as fields), into fresh
+	// destinations and into recycled ones of smaller capacity
+	{
+		rb := newRng(1012)
+		u8 := &Ty{Kind: "u", N: 1}
+		bigL := &Ty{Kind: "list", Elem: u8, N: 1 << 40}
+		sizes := []int{1<<20 + 4097}
+		if thorough() {
+			sizes = []int{1<<20 + 1, 1<<20 + 4097, 2<<20 - 1, 3<<20 + 5}
+		}
+		for _, n := range sizes {
+			body := make([]byte, n)
+			rb.Read(body)
+			body[n-1] = 0x01 // a valid bitlist too: the delimiter is the top bit of the last byte
+			off := []byte{5, 0, 0, 0, 0xaa}
+			two := []byte{8, 0, 0, 0, byte(8 + n), byte((8 + n) >> 8), byte((8 + n) >> 16), 0}
+			// (a valid bitlist of this size is left out: the model's bit sequences - one list
+			// cell per bit - make it take minutes)
+			cases := []struct {
+				ty    *Ty
+				d     []byte
+				fresh bool
+				reuse bool
+			}{
+				{bigL, body, true, thorough()},
+				{&Ty{Kind: "bitlist", N: 1 << 40}, append(append([]byte{}, body[:n-1]...), 0), true, true}, // no delimiter
+				{&Ty{Kind: "cont", Fields: []*Ty{bigL, u8}}, append(append([]byte{}, off...), body...), thorough(), thorough()},
+				{&Ty{Kind: "cont", Fields: []*Ty{bigL, bigL}}, append(append(append([]byte{}, two...), body...), 1, 2, 3), thorough(), true},
+			}
+			for _, c := range cases {
+				if c.fresh {
+					out.emit("bigval", "c10", []string{c.ty.Sexp(), hexBytes(c.d)}, c10Obs(c.ty, c.d))
+				}
+				if c.reuse {
+					out.emit("bigval-reuse", "c10", []string{c.ty.Sexp(), hexBytes(c.d)}, c10ObsInto(c.ty, c.d, reuseGen.val(c.ty)))
+				}
+			}
+		}
+	}
 	full := []byte{}
 	for b := 0; b < 256; b++ {
 		full = append(full, byte(b))
